@@ -5,7 +5,8 @@ from . import pipeline as P
 VERIF = P.VERIF
 
 # evidence level per property (must agree with MANIFEST.json level_claimed.category)
-PROP_LEVEL = {}
+from .manifest_data import CHECKS as _CH
+PROP_LEVEL = {c['property_id']: c['level_claimed']['category'] for c in _CH}
 TRUSTED_BASE = [
     "CBMC 6.11.0 (C front end, goto-instrument dfcc contract instrumentation, SAT back end, built-in libc models)",
     "model/gmp_model.c: GMP mpq/mpz/mpf functions modelled on 32-bit payloads (OPAQUE: arithmetic results nondeterministic; EXACT: exact pair arithmetic, overflow asserted absent)",
@@ -71,7 +72,12 @@ def _parse_val(v):
 def extract_inputs(trace_steps):
     """named harness inputs = last value assigned to a plain identifier inside the harness/builders"""
     inp = {}
+    seq = []
     for st in trace_steps:
+        if re.match(r"^return_value_nondet_(int|uint|bool|char|long|double)(\$\d+)?$", st.get("lhs", "")):
+            v = _parse_val(st.get("value"))
+            seq.append(v if v is not None else 0)
+            continue
         if "lhs" not in st:
             continue
         if not re.match(r"^(harness|qsv_\w+)$", st.get("fn", "")):
@@ -82,6 +88,8 @@ def extract_inputs(trace_steps):
         v = _parse_val(st.get("value"))
         if v is not None:
             inp[lhs] = v
+    if seq:
+        inp["@seq"] = seq
     return inp
 
 
@@ -92,11 +100,35 @@ def native_replay(ws, g, inputs, outdir):
     srcs += [ws.source_path(t) for t in g.model if t.startswith("@")]
     srcs += [os.path.join(VERIF, "model", "qsv_native.c")]
     srcs += [ws.source_path(t) for t in g.tus]
-    cmd = ["gcc", "-O0", "-g", "-w", "-fsanitize=address,undefined", "-fno-sanitize-recover=undefined",
-           "-DQSOPT_EX_VERIF"] + ws.inc() + ["-D" + d for d in g.defines] + srcs + \
-          ["-Wl,--allow-multiple-definition", "-no-pie", "-Wl,--unresolved-symbols=ignore-all", "-o", exe, "-lm"]
+    base = ["gcc", "-O0", "-g", "-w", "-fsanitize=address,undefined", "-fno-sanitize-recover=undefined",
+            "-DQSOPT_EX_VERIF"] + ws.inc() + ["-D" + d for d in g.defines]
+    tail = ["-Wl,--allow-multiple-definition", "-no-pie", "-o", exe, "-lm"]
+    cmd = base + srcs + tail
     try:
         p = subprocess.run(cmd, capture_output=True, text=True, timeout=300)
+        if p.returncode != 0:
+            # symbols of translation units that are not part of this group: functions become
+            # "not linked" stubs that end the replay (exit 78), data become zero-filled storage
+            und = sorted(set(re.findall(r"undefined reference to `([A-Za-z_]\w*)'", p.stderr)))
+            if und:
+                data = set()
+                lib = os.path.join(P.REPO, ".libs", "libqsopt_ex.a")
+                if os.path.exists(lib):
+                    nm = subprocess.run(["nm", lib], capture_output=True, text=True).stdout
+                    for ln in nm.splitlines():
+                        f = ln.split()
+                        if len(f) == 3 and f[1] in "BDCRbdr":
+                            data.add(f[2])
+                stub = os.path.join(outdir, "unlinked_stubs.c")
+                with open(stub, "w") as fh:
+                    fh.write("#include <stdio.h>\n#include <stdlib.h>\n")
+                    for u in und:
+                        if u in data:
+                            fh.write("char %s[65536];\n" % u)
+                        else:
+                            fh.write("void %s(void) { printf(\"REPLAY: call to %s, which is not linked in this group\\n\"); exit(78); }\n" % (u, u))
+                cmd = base + srcs + [stub] + tail
+                p = subprocess.run(cmd, capture_output=True, text=True, timeout=300)
     except Exception as e:
         return {"built": False, "error": str(e)}
     if p.returncode != 0:
@@ -104,16 +136,21 @@ def native_replay(ws, g, inputs, outdir):
     inp = os.path.join(outdir, "inputs.txt")
     with open(inp, "w") as fh:
         for k, v in inputs.items():
-            fh.write("%s=%d\n" % (k, v))
+            if k == "@seq":
+                for x in v:
+                    fh.write("@=%d\n" % x)
+            else:
+                fh.write("%s=%d\n" % (k, v))
     try:
-        q = subprocess.run([exe, inp], capture_output=True, text=True, timeout=60, errors="replace")
+        q = subprocess.run([exe, inp], capture_output=True, text=True, timeout=60, errors="replace",
+                           env=dict(os.environ, ASAN_OPTIONS="detect_leaks=0"))
     except subprocess.TimeoutExpired:
         return {"built": True, "ran": False, "error": "native replay timed out (possible hang)", "reproduced": True}
     out = (q.stdout + "\n" + q.stderr)[-4000:]
     reproduced = (q.returncode == 1 and "POSTCONDITION VIOLATED" in q.stdout) or "ERROR: AddressSanitizer" in q.stderr \
         or "runtime error:" in q.stderr or q.returncode < 0 or "GMP-MODEL-ASSERT" in q.stderr
-    if q.returncode == 77:
-        reproduced = False
+    if q.returncode in (77, 78) or "pc points to the zero page" in q.stderr:
+        reproduced = False   # precondition not met by the extracted inputs / harness calls a symbol that is not linked
     return {"built": True, "ran": True, "exit": q.returncode, "output": out, "reproduced": bool(reproduced),
             "cmd": " ".join(cmd[:6]) + " ... (harness + instantiated sources + model)"}
 
